@@ -132,7 +132,7 @@ func runC03(ctx *core.Ctx, pool *par.Pool) {
 	if !ctx.Quick() {
 		cfgs = []pagedrv.Cfg{pagedrv.CfgA, pagedrv.CfgB, pagedrv.CfgC, pagedrv.CfgD}
 		depth, seedDepth = 9, 8
-		ctx.SetBudget(28 * 60 * 1e9)
+		ctx.SetBudget(15 * 60 * 1e9)
 	} else {
 		ctx.SetBudget(115 * 1e9)
 	}
